@@ -7,6 +7,7 @@ k=0
 while [ $k -lt $n ]; do
   SHARD=$k NSHARDS=$n tools/sweep_seeds.sh "$tier" "$seed" "/tmp/wt/sweep_part$k.json" > "/tmp/wt/sweep_part$k.log" 2>&1 &
   k=$((k + 1))
+  sleep 5     # (git worktree add takes a lock on /repo/.git)
 done
 wait
 /venv/bin/python tools/sweep_merge.py "$n"
